@@ -11,7 +11,8 @@ def main():
                 "the dataclass module is synthesised, ORMatic generates the SQLAlchemy module from the working tree (twice: bytes "
                 "must be equal), the module is imported, mappers configured, the schema created on SQLite, one instance per class "
                 "stored, and every mapper is inspected: base DAO, local columns with type and nullability, relationships with "
-                "target and uselist. Non-trivial = a model with a relationship or inheritance; distinct by (model, class order).")
+                "target and uselist. The generated text must also be the same from a second generator over one diagram object and after the "
+                "model's modules were executed again (the same classes as new objects at other addresses). Non-trivial = a model with a relationship or inheritance; distinct by (model, class order).")
     cfg = "ClassModel_gen_c06t.cfg" if thorough else "ClassModel_gen_c06.cfg"
     models = [j for j in ctx.run_tlc("ClassModel", cfg, expect="ok", seed=ctx.seed + 11).json_lines() if isinstance(j, dict) and "schema" in j]
     if len(models) < 250:
@@ -33,6 +34,10 @@ def main():
         else:
             if r.get("foreign_imports"):
                 problems.append(f"the generated module imports modules of other models generated earlier in the process: {r['foreign_imports'][:3]}")
+            if not r.get("deterministic_over_one_diagram", True):
+                problems.append("a second generator over the same diagram object generates another module than the first")
+            if not r.get("deterministic_across_reload", True):
+                problems.append("the same model loaded again (new class objects at other addresses) generates a differently ordered module")
             if not r["deterministic"]:
                 problems.append("two generations of the same model differ (or calling make_all_tables() again changes the output)")
             for k in ("K1", "K2", "K3"):
